@@ -142,8 +142,11 @@ def main(argv=None):
     for m, n in sorted(known_hits.items()):
         print(f"KNOWN-FINDING: property={mod.ID} {m}: {known[m].get('what','')} (observed {n}x in this run)")
 
-    evaluations = len(results)
+    # a case of a chunked check (C10, C11, C15, C16) evaluates many inputs: it reports them in "keys" (one per
+    # distinct non-trivial input) and, when it counts them, in "evaluated"
+    evaluations = sum(int(r["evaluated"]) if r.get("evaluated") else max(1, len(r.get("keys") or [])) for r in results)
     coverage = {
+        "cases_run": len(results),
         "evaluations": evaluations,
         "distinct_nontrivial": len(keys),
         "rule": getattr(mod, "RULE", ""),
@@ -172,7 +175,7 @@ def main(argv=None):
         inconclusive.append("evidence failed schema validation")
 
     print(
-        f"{mod.ID} tier={tier} seed={seed} cases={len(cases)} results={evaluations} distinct_nontrivial={len(keys)} "
+        f"{mod.ID} tier={tier} seed={seed} cases={len(cases)} results={len(results)} distinct_nontrivial={len(keys)} "
         f"violations={len(unlisted)} known={sum(known_hits.values())} lost={len(lost)} errors={len(errors)} wall={wall:.1f}s"
     )
     if counters:
